@@ -9,9 +9,9 @@
    The prompt (last line printed before the read) tells which metric the question is about.
    CheckPattern = TRUE additionally demands of every returned string the official vectorString
    pattern of its version (C08).                                                            *)
-EXTENDS Interactive, Json, IOUtils, TLC
+EXTENDS Interactive, Json, IOUtils, TLC, TraceData
 CONSTANT CheckPattern
-Traces == JsonDeserialize(IOEnv.TRACE_FILE)
+Traces == TraceData
 VARIABLES tid, l
 tvars == <<tid, l, bver, all, asked, accepted, cur, st, result>>
 Tr == Traces[tid]
